@@ -235,7 +235,8 @@ theorem resolveOperand_immediate (row : InstrRow) (s : Str) (i : Nat) (h : Optio
 theorem resolveOperand_inherent (row : InstrRow) (t : SymTab) :
     resolveOperand { kind := .inherent, text := [], value := .none } row t =
       .ok { kind := .inherent, text := [], value := .none } := by
-  simp [resolveOperand, Value.resolve]
+  have hn : Value.none.resolve t = .ok .none := rfl
+  simp [resolveOperand, hn]
 
 theorem resolveOperand_bracket_numeric (row : InstrRow) (s : Str) (i : Nat) (h : Option Nat) (m : Mode) (n : Bool)
     (t : SymTab) :
